@@ -428,8 +428,9 @@ def orchestrate(pid, tier, seed, jobs=None, replay=None):
         verdict, rc = 'HELD on %d executions' % agg['evaluations'], 0
     ev['coverage']['verdict'] = verdict
     if not replay:
-        os.makedirs(os.path.join(VERIF, 'evidence'), exist_ok=True)
-        with open(os.path.join(VERIF, 'evidence', pid + '.json'), 'w') as f:
+        evdir = os.environ.get('VERIF_EVIDENCE_DIR', os.path.join(VERIF, 'evidence'))
+        os.makedirs(evdir, exist_ok=True)
+        with open(os.path.join(evdir, pid + '.json'), 'w') as f:
             json.dump(ev, f, indent=1, sort_keys=False)
     # report
     print('%s tier=%s seed=%d evaluations=%d distinct_nontrivial=%d wall=%.1fs modes=%s'
